@@ -262,3 +262,60 @@ func ruleC09SortTotal(p *Prog, a *Anchors, r *Report) {
 		}
 	}
 }
+
+// R-C09-STATEONCE: what a tag remembers between its executions within one rendering (ifchanged's previous values) lives in
+// the rendering's node state. A fresh state object may be installed only where none was stored yet: a tag that starts
+// afresh under any other condition (a new run of an inner loop, another calling context) forgets the previous
+// iteration, and `ifchanged` prints what did not change.
+func ruleC09StateOnce(p *Prog, a *Anchors, r *Report) {
+	r.Begin("R-C09-STATEONCE", "a node installs a freshly allocated state object for the rendering only on the edge on which no state was stored yet (the stored state is nil)", 1)
+	n := 0
+	for _, f := range p.inPkgFuncsSorted(a.ExecReach()) {
+		for _, b := range f.Blocks {
+			for _, in := range b.Instrs {
+				c, ok := in.(*ssa.Call)
+				if !ok || c.Common().StaticCallee() == nil || c.Common().StaticCallee().Name() != "setNodeState" || !p.InPkg(c.Common().StaticCallee()) {
+					continue
+				}
+				args := c.Common().Args
+				v := args[len(args)-1]
+				if mi, isMI := v.(*ssa.MakeInterface); isMI {
+					v = mi.X
+				}
+				if _, isAlloc := v.(*ssa.Alloc); !isAlloc {
+					continue
+				}
+				n++
+				key := p.FuncName(f) + ":fresh-state"
+				absent := Guarded(in, func(cond ssa.Value, pol bool) bool {
+					x, eq, isNil := condIsNilTest(cond)
+					if !isNil || eq != pol {
+						return false
+					}
+					// x comes out of getNodeState
+					for d := 0; d < 4 && x != nil; d++ {
+						switch t := x.(type) {
+						case *ssa.Extract:
+							x = t.Tuple
+						case *ssa.TypeAssert:
+							x = t.X
+						case *ssa.Call:
+							return t.Common().StaticCallee() != nil && t.Common().StaticCallee().Name() == "getNodeState"
+						default:
+							return false
+						}
+					}
+					return false
+				})
+				if absent {
+					r.OK(key, p.InstrPos(in), "a fresh state is installed only when the rendering has none for this node")
+				} else {
+					r.Bad(key, p.InstrPos(in), "%s can replace the state it stored earlier in the same rendering by a fresh one (the store is not limited to the edge on which the stored state is nil): what the tag remembered from the previous iteration is lost — ifchanged prints an unchanged value again, e.g. at every new run of an inner loop", p.FuncName(f))
+				}
+			}
+		}
+	}
+	if n == 0 {
+		r.Trivial("none", "-", "no node installs a freshly allocated state object")
+	}
+}
